@@ -4,7 +4,7 @@
    All statements are over ARBITRARY label lists: any arrival sequence and any interleaving / wake-up order of the tasks,
    any number of consumers and waiters, unbounded queue. *)
 From Coq Require Import List Bool Arith.
-Require Import GV.Model.Dispatch GV.Proofs.DispatchP.
+Require Import GV.Gen.DispatchFacts GV.Model.Dispatch GV.Proofs.DispatchP.
 Import ListNotations.
 
 (* every datagram ever queued is still queued or has been popped, never both, never twice *)
@@ -31,17 +31,19 @@ Theorem c07_addressed_requeues : forall s i inner r, q s = (i, Packet true inner
   q (step s (Poll (K PACKET_CLASS))) = r ++ [(nextid s, Plain inner)].
 Proof. exact addressed_requeues. Qed.
 
-(* no datagram stays at the head for more than three polls of the unhandled consumer (a few polling intervals), whatever
-   arrives meanwhile and even if no other consumer ever polls: unknown or unsolicited traffic cannot block later datagrams *)
-Theorem c07_head_leaves_within_three_polls : forall s x r a b c,
-  Inv s -> q s = x :: r -> puts_only a -> puts_only b -> puts_only c ->
-  let s' := run s (a ++ [Poll Unh] ++ b ++ [Poll Unh] ++ c ++ [Poll Unh]) in
-  ~ In (fst x) (map fst (q s')).
-Proof. exact head_leaves_within_three_unhandled_polls. Qed.
+(* no datagram stays at the head for more than patience + 2 polls of the unhandled consumer (a few polling intervals; the
+   patience - 3 intervals in the current code - is read from the AST), whatever arrives meanwhile and even if no other
+   consumer ever polls: unknown or unsolicited traffic cannot block later datagrams *)
+Theorem c07_head_leaves_within_a_few_polls : forall s x r ls,
+  Inv s -> InvU s -> q s = x :: r -> forallb quiet_label ls = true -> unhandled_patience + 2 <= unh_polls ls ->
+  ~ In (fst x) (map fst (q (run s ls))).
+Proof. exact head_leaves_within_patience_plus_two_polls. Qed.
+Theorem c07_phase_counter_bounded : forall ls, InvU (run init ls).
+Proof. exact reachable_InvU. Qed.
 Theorem c07_invariant_everywhere : forall ls, Inv (run init ls).
 Proof. exact dispatch_safe. Qed.
 
 Example c07_nonvacuous :
-  let s := run init [Put (Plain [7]); Put (Packet true [3]); Poll (K 3); Poll Unh; Poll (K 1); Poll Unh; Poll (K 1); Poll (K 3)] in
+  let s := run init ([Put (Plain [7]); Put (Packet true [3]); Poll (K 3)] ++ repeat (Poll Unh) (S unhandled_patience) ++ [Poll (K 1); Poll Unh; Poll (K 1); Poll (K 3)]) in
   map (fun p => (fst (fst p), snd p)) (popped s) = [(2, K 3); (1, K 1); (0, Unh)] /\ q s = [].
 Proof. vm_compute. split; reflexivity. Qed.
